@@ -13,6 +13,8 @@ def configs(tier):
     for n in lens:
         for size in ([1, 2] if tier == 'quick' else [1, 2, 3]):
             for per in range(1, n + 3):
+                if tier == 'quick' and n == 3 and per == 1:
+                    continue        # three chunk files (407 canonical states, ~3 min per configuration): thorough tier only
                 out.append((n, size, per))
     return out
 
@@ -30,7 +32,7 @@ def describe(tier):
                 'BFS to fixpoint for every configuration (array_len, item_size, items_per_file) with len in %s, item_size in %s, '
                 'items_per_file 1..len+2: every event of the alphabet is applied to every reachable canonical state. Alphabet: a[i] and '
                 'a[i]=v and del a[i] for every i in [-len-1, len]; v in {b"", 1 byte, item_size bytes, item_size+1 bytes, bytearray, str, int, None}; '
-                'slice read / delete / write for start, stop in {None,-len-1,-len,-1,0,1,len-1,len,len+1}, step in {None,1,2,-1,-2}; slice '
+                'slice read / delete / write for start, stop in {None,-len-1,-len,-1,0,1,len-1,len,len+1}, step in {None,1,2,-1,-2} (quick, len 3: {None,2,-1} and at most two chunk files); slice '
                 'writes with value lists shorter / equal / longer than the slice, a bad (oversized or non-bytes) element at EVERY position j '
                 '(including just beyond the slice), a non-iterable and a bytes object as the value list; clear, iteration, membership, len, '
                 'sync, close, close+open, create over the existing path, from_list. Item values come from a 3-element domain {zero, X, Y}. '
@@ -60,11 +62,12 @@ def units(tier, seed):
 
 # ------------------------------------------------------------------ system under test + model
 class Sut:
-    __slots__ = ('arr', 'model', 'closed', 'dir', 'path', 'stray')
+    __slots__ = ('arr', 'model', 'closed', 'dir', 'path', 'stray', 'must_rebuild')
 
 
 class ArraySystem:
-    def __init__(self, n, size, per, reduced=False):
+    def __init__(self, n, size, per, reduced=False, steps=(None, 1, 2, -1, -2)):
+        self.steps = list(steps)
         from data_persistence.persistent_array import SPFLBArray
         self.cls = SPFLBArray
         self.n, self.size, self.per = n, size, per
@@ -105,11 +108,11 @@ class ArraySystem:
             evs.append(('del', i))
         bounds = sorted({-n - 1, -n, -1, 0, 1, n - 1, n, n + 1})
         ss = [None] + bounds
-        for start, stop, step in itertools.product(ss, ss, [None, 1, 2, -1, -2]):
+        for start, stop, step in itertools.product(ss, ss, self.steps):
             evs.append(('sget', start, stop, step))
-        for start, stop, step in itertools.product(ss, ss, [None, 1, 2, -1, -2]):
+        for start, stop, step in itertools.product(ss, ss, self.steps):
             evs.append(('sdel', start, stop, step))
-        for start, stop, step in itertools.product(ss, ss, [None, 1, 2, -1, -2]):
+        for start, stop, step in itertools.product(ss, ss, self.steps):
             k = len(range(*slice(start, stop, step).indices(n)))
             variants = ['short', 'equal', 'long', 'not-iterable', 'bytes-as-list', 'bad-beyond']
             for j in range(k):
@@ -151,6 +154,7 @@ class ArraySystem:
         s.model = [self.Z] * self.n
         s.closed = False
         s.stray = frozenset()
+        s.must_rebuild = False
         return s
 
     def dispose(self, s):
@@ -287,6 +291,49 @@ class ArraySystem:
             return (len(a), a.item_size)
         raise KeyError(op)
 
+    def post_check(self, s, ev):
+        """complete read-back (through the API, and once more after close+open) against the model; only called on an
+        object that is about to be disposed, so perturbing its cache does not matter"""
+        probs = []
+        if s.closed:
+            return probs
+        try:
+            full = s.arr[:]
+            if full != s.model:
+                probs.append(('contents-differ-from-model-after', ev[0], s.model, full))
+            else:
+                s.arr.close()
+                again = self.cls.open(s.path)
+                try:
+                    full = again[:]
+                finally:
+                    again.close()
+                if full != s.model:
+                    probs.append(('contents-differ-from-model-after-reopen-following', ev[0], s.model, full))
+        except Exception as e:
+            probs.append(('unreadable-after', ev[0], s.model, core.exc_text(e)))
+        return probs
+
+    def peek_full(self, s):
+        """complete read through the API that leaves no trace: chunk files the read had to open are closed again and chunk
+        files it had to create are removed, so the lazily built cache and the directory are exactly as before.  If the
+        private cache cannot be reached the object is marked for rebuild instead."""
+        before_cached = self.cached(s)
+        before_files = set(os.listdir(s.dir))
+        full = s.arr[:]
+        try:
+            u = s.arr._SPFLBArray__underlying_array
+            files = u._SimpleMultiFilePersistentFixedLengthBytesArray__opened_files
+            for i, f in enumerate(files):
+                if f is not None and i not in before_cached:
+                    f.close()
+                    files[i] = None
+            for fn in set(os.listdir(s.dir)) - before_files:
+                os.unlink(os.path.join(s.dir, fn))
+        except Exception:
+            s.must_rebuild = True
+        return full
+
     def step(self, s, ev):
         probs = []
         was_closed = s.closed
@@ -314,18 +361,13 @@ class ArraySystem:
         # after a failing operation the array is exactly as it was
         if got[0] == 'raise' and not s.closed and ev[0] != 'create-existing':
             try:
-                full = s.arr[:]
+                full = self.peek_full(s)
                 if full != s.model:
                     probs.append(('changed-by-failing-operation', opname, s.model, full))
             except Exception as e:
                 probs.append(('unreadable-after-failing-operation', opname, s.model, core.exc_text(e)))
-        if ev[0] == 'reopen' and got[0] == 'ok':
-            try:
-                full = s.arr[:]
-                if full != s.model:
-                    probs.append(('contents-differ-after-reopen', 'reopen', s.model, full))
-            except Exception as e:
-                probs.append(('unreadable-after-reopen', 'reopen', s.model, core.exc_text(e)))
+        # (contents after reopen are compared by post_check, on an object that is disposed afterwards: a read-back here would
+        # open every chunk file and hide all states with a cold cache)
         return probs
 
 
@@ -352,7 +394,7 @@ def run_unit(p, tier, seed):
         r.outcome(kind)
 
     if p['kind'] == 'bfs':
-        system = ArraySystem(n, size, per)
+        system = ArraySystem(n, size, per, steps=((None, 2, -1) if (tier == 'quick' and n >= 3) else (None, 1, 2, -1, -2)))
         st, seen = xstate.bfs(system, on_problem, max_states=60000)
         r['states'] += st.states
         r['transitions'] += st.transitions
